@@ -59,7 +59,14 @@ func (s *vrfStore) RemoveMessage(mailbox, id string) error {
 	}
 	s.removed = append(s.removed, id)
 	s.rmBox = append(s.rmBox, mailbox)
-	return nil
+	// a message that has gone in the meantime (the store changed behind the session) cannot be
+	// removed: the other marked messages must be removed all the same
+	for _, m := range s.boxes[mailbox] {
+		if m.id == id {
+			return nil
+		}
+	}
+	return storage.ErrNotExist
 }
 func (s *vrfStore) VisitMailboxes(f func([]storage.Message) bool) error { return nil }
 
